@@ -123,6 +123,25 @@ func qModel(kind string, capN int) porcupine.Model {
 			}
 			s.req = back(s.req, i.V)
 			return o.Code == OK, s.enc()
+		case "addanyway":
+			// like add, but a full queue makes it wait (sleep and retry): it can only take effect when there is room
+			if s.closed {
+				return o.Code == Closed, st
+			}
+			if capN > 0 && len(s.req) >= capN {
+				return false, st
+			}
+			s.req = back(s.req, i.V)
+			return o.Code == OK, s.enc()
+		case "addctrlanyway":
+			if s.closed {
+				return o.Code == Closed, st
+			}
+			if capN > 0 && len(s.ctrl) >= capN {
+				return false, st
+			}
+			s.ctrl = back(s.ctrl, i.V)
+			return o.Code == OK, s.enc()
 		case "addprior":
 			if s.closed {
 				return o.Code == Closed, st
@@ -250,12 +269,13 @@ func drawC12(rt *rapid.T) interface{} {
 	case KPriQ:
 		choices = []string{"add", "add", "add", "trypop", "trypop", "len"}
 	case KMQ:
-		choices = []string{"add", "add", "addprior", "addctrl", "addctrl", "addpriorctrl", "pop", "popanyway", "popanyway", "close", "tryclose", "tryclear"}
+		choices = []string{"add", "add", "addprior", "addctrl", "addctrl", "addpriorctrl", "pop", "popanyway", "popanyway", "close", "tryclose", "tryclear", "addanyway", "addctrlanyway"}
 	default:
-		choices = []string{"add", "add", "add", "addprior", "pop", "popanyway", "popanyway", "close"}
+		choices = []string{"add", "add", "add", "addprior", "pop", "popanyway", "popanyway", "close", "addanyway"}
 	}
 	nt := rapid.IntRange(1, 4).Draw(rt, "ntasks")
-	maxOps := 8
+	maxOps := 14 / nt // concurrent histories are kept short: porcupine has to search the orders of overlapping adds,
+	// which only the final drain reveals (26 operations with 12 overlapping adds already cost seconds)
 	if nt == 1 {
 		maxOps = 40
 	}
@@ -288,6 +308,10 @@ func doOp(q Queue, op qOp) qOut {
 		return qOut{Code: q.AddCtrl(op.V)}
 	case "addpriorctrl":
 		return qOut{Code: q.AddPriorCtrl(op.V)}
+	case "addanyway":
+		return qOut{Code: q.AddAnyway(op.V)}
+	case "addctrlanyway":
+		return qOut{Code: q.AddCtrlAnyway(op.V)}
 	case "pop":
 		v, c := q.Pop()
 		return qOut{V: v, Code: c}
@@ -358,15 +382,19 @@ func runC12(t *testing.T, sci interface{}, keepLog bool) *hx.Outcome {
 		}
 		// final drain through the draining API: conservation
 		if q.Has("popanyway") || q.Has("trypop") {
+			drainClosed := false
 			for k := 0; k < 200; k++ {
 				var op qOp
 				if q.Has("trypop") {
 					op = qOp{Op: "trypop"}
 				} else {
-					// only safe when closed (else it would block): close first
-					call := h.Invoke()
-					q.Close()
-					h.Return(len(sc.Tasks), call, qIn{"close", 0}, qOut{Code: "done"})
+					// only safe when closed (else it would block): close first, once
+					if !drainClosed {
+						call := h.Invoke()
+						q.Close()
+						h.Return(len(sc.Tasks), call, qIn{"close", 0}, qOut{Code: "done"})
+						drainClosed = true
+					}
 					op = qOp{Op: "popanyway"}
 				}
 				call := h.Invoke()
@@ -388,7 +416,7 @@ func runC12(t *testing.T, sci interface{}, keepLog bool) *hx.Outcome {
 		o.Nontrivial = len(sc.Tasks[0]) >= 3
 	}
 	if o.Class == "" {
-		switch hx.CheckLin(qModel(sc.Kind, sc.Cap), h, 20*time.Second) {
+		switch hx.CheckLin(qModel(sc.Kind, sc.Cap), h, 10*time.Second) {
 		case "illegal":
 			o.Class = "history-not-linearizable"
 			o.Msg = fmt.Sprintf("%s cap=%d: no sequential order of the recorded operations is explained by the queue model", sc.Kind, sc.Cap)
